@@ -265,6 +265,13 @@ func TestVerif_C02_h3recv(t *testing.T) {
 		if r.Intn(25) == 0 {
 			bl = 65535 + r.Intn(3)
 		}
+		// a HEAD request: the origin sends the head (Content-Length of the representation
+		// included) and no DATA
+		isHead := r.Intn(10) == 0
+		declLen := bl
+		if isHead {
+			bl = 0
+		}
 		body := verifh.RandBytes(r, bl, "")
 		var wire []byte
 		var lists [][]c02KV
@@ -299,7 +306,12 @@ func TestVerif_C02_h3recv(t *testing.T) {
 		}
 		declared := r.Intn(2) == 0
 		clv := len(body)
-		if declared {
+		if isHead {
+			clv = declLen
+		}
+		if declared && isHead {
+			fs = append(fs, c02KV{"content-length", strconv.Itoa(clv)})
+		} else if declared {
 			switch r.Intn(8) {
 			case 0:
 				if clv > 0 {
@@ -445,7 +457,11 @@ func TestVerif_C02_h3recv(t *testing.T) {
 				Options:    &transport.Options{MaxResponseHeaderBytes: int64(maxHdr)},
 				Connection: conn,
 			}
-			req, _ := http.NewRequest("GET", "https://c02.invalid/x", nil)
+			method := "GET"
+			if isHead {
+				method = "HEAD"
+			}
+			req, _ := http.NewRequest(method, "https://c02.invalid/x", nil)
 			res, err := rt.RoundTrip(req)
 			if err != nil {
 				impl = "error:" + c02ErrClass(err)
@@ -489,17 +505,27 @@ func TestVerif_C02_h3recv(t *testing.T) {
 					}
 				}
 				if last != nil && last != io.EOF && fin == "eof" {
-					propOK = false
+					// a trailer block above the configured MaxResponseHeaderBytes is refused: a
+					// documented limit, not an infidelity
+					if !(maxHdr < 1<<20 && c02ErrClass(last) == "headersTooLarge") {
+						propOK = false
+					}
 				}
 				if strconv.Itoa(res.StatusCode) != status {
 					propOK = false
 				}
 			}
-			if mut == "cl-small" && last == io.EOF && len(data) > clv {
+			// (no length accounting on HEAD / 204 / 304 responses: /repo d991601)
+			if mut == "cl-small" && last == io.EOF && len(data) > clv && !isHead && status != "204" && status != "304" {
 				propOK = false
 			}
 		})
-		line := fmt.Sprintf("c02h3recv %s %s %s %d %s", verifh.HexList(segs), fin, flArg, maxHdr, verifh.IntList(reads))
+		hd := "0"
+		if isHead {
+			hd = "1"
+			s.Count("HEAD")
+		}
+		line := fmt.Sprintf("c02h3recv %s %s %s %s %d %s", hd, verifh.HexList(segs), fin, flArg, maxHdr, verifh.IntList(reads))
 		human := fmt.Sprintf("h3 status=%s interim=%d fields=%d declared=%v body=%d trailers=%d wire=%d segs=%d fin=%s mut=%s maxhdr=%d reads=%d", status, ninterim, len(fs), declared, len(body), len(trailers), len(wire), len(segs), fin, mut, maxHdr, len(reads))
 		if panicked {
 			s.Crash(line, human, ptxt, "")
